@@ -6,10 +6,10 @@ HARNESSES = wc.HARNESSES
 LEVEL_WITHOUT_PROOF = "other"
 
 CFG = dict(
-    mix=dict(create=3, assign=2, remove=2, sassign=4, sremove=2, build=2, destroynow=1, clone=1, dump=1, clear=0.3, createin=1),
+    mix=dict(create=3, assign=2, remove=2, sassign=4, sremove=2, build=2, destroynow=1, clone=1, dump=1, clear=0.3, createin=1, latedep=0.6),
     corpus=[x for x in "C12".split(",")],
     n_quick=500, n_thorough=6000, len=(8, 45),
-    gen=dict(lock_bias=0.0, shared=True),
+    gen=dict(lock_bias=0.0, shared=True, latedep_held=True, ndeps=1),
     what="shared assign/replace/remove mixed with ordinary and builder edits and creation with shared types; instance identity classes and values",
 )
 
